@@ -156,6 +156,7 @@ class Translator:
         for key, val in cx['spec'].abstract.items():
             if txt == key or txt.endswith('.' + key) or txt == 'self.' + key:
                 names = [val] if isinstance(val, str) else list(val)
+                cx['abscalls'].append(ast.unparse(n) if n.args or n.keywords else ast.unparse(n.func))
                 # a second occurrence of the same abstract call gets fresh names
                 k = cx['abs_count'].get(key, 0)
                 cx['abs_count'][key] = k + 1
@@ -352,12 +353,13 @@ class Translator:
         src = textwrap.dedent(inspect.getsource(fn))
         node = ast.parse(src).body[0]
         cx = dict(spec=spec, mod=mod, env={p: p for p in spec.params}, boolenv=set(spec.bools),
-                  selfattrs=[], absparams=[], abs_count={}, notes=[])
+                  selfattrs=[], absparams=[], abs_count={}, notes=[], abscalls=[])
         body = self.block(list(node.body), cx)
         # return arity
         nret = self._arity(node, self.registry)
         rty = ' × '.join(['α'] * nret)
         spec._selfattrs, spec._absparams, spec._nret, spec._notes = cx['selfattrs'], cx['absparams'], nret, cx['notes']
+        spec._abscalls = cx['abscalls']
         allp = spec.params + cx['selfattrs'] + cx['absparams']
         sig = ''
         if allp:
